@@ -79,11 +79,14 @@ CLAIMED = {
         text="PLACEMENT (Props/C07Sem.lean, accepted_programs_are_placed): in every AST the parser model returns - all file systems, import graphs, token sequences - continue stands in a "
              "loop body, return in a function body, function definitions only at the top level of a file under a non-empty name, break in a loop or a switch (the parser's rule); with "
              "breaks_in_loops this is the strict placement the Batch emitter needs, and accepted_programs_translate_for_both_targets closes C06's target independence from the source text on. "
+             "VISIBILITY (accepted_programs_use_visible_variables, parsed_files_use_visible_variables): every variable an accepted program reads, assigns, element-assigns, copies into or counts "
+             "is, at that place, a variable that a definition earlier in the same or an enclosing statement list, the parameter list, or the loop header introduced - with that type; a block's "
+             "definitions end with the block, a function body sees globals and parameters only (PT.useSs; also evaluated on every accepted AST of the real parser in the run). "
              "Theorems (Props/C07.lean) about the scope part of the parser model: a registered definition is found and disturbs no other name; the context of a function body holds "
              "only globals; accepted parameter lists have distinct names; the scope-stack queries behind break/continue/return. Program verdicts: scope-skeleton oracle; placement "
              "rules are also checked on every parser output (MISPLACED tag).",
         note=TB + "block-local scoping is by the type of the model function (blocks return statements only); the Go clone() sites are covered by correspondence.",
-        technique="Lean 4 placement theorem for the parser model (scope-stack invariant) and theorems on its context operations + scope-skeleton generator with known verdicts (main file and imported file)",
+        technique="Lean 4 placement and variable-visibility theorems for the parser model (scope-stack / visible-variables invariants) and theorems on its context operations + scope-skeleton generator with known verdicts (main file and imported file)",
         design="7/C07"),
     "C08": dict(
         text="SEMANTIC SIDE (Props/C08Sem.lean, strings_are_opaque_in_the_script): in the fragment of the C02 theorem a literal may contain every ASCII character except $ and backquote; the script prints exactly the strings the source semantics computes, through assignment, concatenation, comparison, parameters, return values, slice elements, copy, subscripts and len. All special strings of the generator are also run through the Lean models next to /bin/bash in every run (evidence: semantic_models). Theorems (Props/C08.lean): for every literal without $ and backquote the text bash reads between the quotes the converter writes is the literal itself and the quote ends "
